@@ -14,7 +14,9 @@ RULE = ("cohorts of 1..8 coverage-file pairs written to a temp dir (sex mix, per
         "plain naming, with / without antitarget files incl. empty ones, male / female reference, sexes given or "
         "inferred by the real guess_xx) through do_reference with the bias corrections off (exact oracle = the Lean "
         "model incl. Tukey's biweight location / midvariance); malformed cohorts (a file whose bins differ); "
-        "do_reference_flat; calculate_gc_lo on random sequences. non-trivial = >= 2 samples or a sex chromosome "
+        "do_reference_flat; calculate_gc_lo on random sequences; same-sex cohorts of 3..6 normals differing only in depth "
+        "through do_reference with the corrections ON (tiled or irregular designs, non-flat profile, <= 10% X bins; "
+        "semantic clauses only: spread ~ 0 and the same profile as at equal depth). non-trivial = >= 2 samples or a sex chromosome "
         "present; distinct by hash")
 EXHAUSTIVE = {"quick": False, "thorough": False}
 ASSUMPTIONS = ["corrections off for the exact tie (with corrections on the rolling-median steps are C04's subject)",
@@ -97,9 +99,39 @@ def _cohort(rng, ideal=False):
                    "profile_t": [frac(x) for x in prof_t], "profile_a": [frac(x) for x in prof_a]}}
 
 
+def _cohort_on(rng):
+    """same-sex normals that differ only in sequencing depth, bias corrections ON (semantic clauses only: the
+    rolling-median corrections are C04's subject).  Half the cohorts use a tiled design (equal bin sizes and gaps,
+    hence tied edge-bias keys); the common profile is not flat; sex chromosomes are at most 10% of the bins."""
+    style = rng.choice(["chr", ""])
+    k = rng.randint(3, 6)
+    fem = rng.random() < .5
+    hapx = rng.random() < .5
+    tiled = rng.random() < .5
+    tb = []
+    for c in ["1", "2", "3"][: rng.randint(1, 3)]:
+        pos = rng.randint(0, 3000)
+        for j in range(rng.randint(25, 60)):
+            sz = 200 if tiled else rng.randint(100, 400)
+            tb.append([style + c, pos, pos + sz, "G%d" % (j // 4)])
+            pos += sz + (2000 if tiled else rng.choice([0, 50, 700, 3000]))
+    nx = max(1, len(tb) // 12)
+    pos = 500
+    for j in range(nx):
+        tb.append([style + "X", pos, pos + 200, "GX%d" % (j // 3)])
+        pos += 2200
+    g8 = lambda x: round(x * 8) / 8
+    prof = [g8(rng.gauss(0, .5)) for _ in tb]
+    scales = [g8(rng.gauss(0, 1.2)) for _ in range(k)]
+    names = ["smp%02d_%d" % (rng.randint(0, 99), s) for s in range(k)]
+    return {"op": "reference_on", "tag": "corrections-on-" + ("tiled" if tiled else "irregular"),
+            "in": {"bins": tb, "profile_f": prof, "scales_f": scales, "names": names, "female": fem, "hapX": hapx, "k": k}}
+
+
 def gen_cases(rng, tier):
     n = {"quick": 70, "thorough": 700, "search": 100}[tier]
     cases = [_cohort(rng, ideal=(i % 4 == 0)) for i in range(n)]
+    cases += [_cohort_on(rng) for _ in range(max(6, n // 6))]
     for _ in range(n // 2):
         seq = "".join(rng.choice("ACGTacgtNnRY") for _ in range(rng.randint(0, 60)))
         cases.append({"op": "gc_rmask", "tag": "gc", "in": {"seq": seq}})
@@ -155,6 +187,24 @@ def run_impl(case):
     os.makedirs("/var/tmp/verif-c05", exist_ok=True)
     d = tempfile.mkdtemp(dir="/var/tmp/verif-c05")
     try:
+        if op == "reference_on":
+            def build(scales, sub):
+                os.makedirs(os.path.join(d, sub))
+                files = []
+                for name, sc in zip(i["names"], scales):
+                    rows = []
+                    for (c, a, b, g), pr in zip(i["bins"], i["profile_f"]):
+                        lg = 6 + sc + pr - (1 if (c.replace("chr", "") == "X" and not i["female"]) else 0)
+                        rows.append([c, a, b, g, lg, 2.0 ** lg])
+                    pth = os.path.join(d, sub, name + ".targetcoverage.cnn")
+                    _write(rows, pth)
+                    files.append(pth)
+                ref = reference.do_reference(files, None, None, i["hapX"], None, i["female"])
+                return ref.data
+            r1 = build(i["scales_f"], "scaled")
+            r0 = build([0.0] * i["k"], "same")
+            return {"n": int(len(r1)), "n_bins": len(i["bins"]), "max_spread": float(np.nanmax(np.abs(r1["spread"].values))),
+                    "max_diff": float(np.nanmax(np.abs(r1["log2"].values - r0["log2"].values))) if len(r1) == len(r0) else float("inf")}
         if op == "flat_reference":
             tp = os.path.join(d, "t.bed")
             tabio.write(GA.from_rows([tuple(r) for r in i["tb"]], columns=["chromosome", "start", "end", "gene"]), tp, "bed4")
@@ -204,6 +254,8 @@ def to_line(case, impl):
     err = isinstance(impl, dict) and "__error__" in impl
     if op == "gc_rmask":
         return {"op": op, "in": {"seq": i["seq"]}}
+    if op == "reference_on":
+        return {"op": "gc_rmask", "in": {"seq": ""}}  # no model for the corrections-on run: semantic clauses only
     if op == "flat_reference":
         bins = [[r[0], r[1], r[2], r[3], "0", "1"] for r in i["tb"] + i["ab"]]
         return {"op": op, "in": {"bins": bins, "hapX": i["hapX"], "par": i["par"]}}
@@ -272,6 +324,15 @@ def judge(case, impl, resp):
     if isinstance(impl, dict) and "__error__" in impl:
         return ["raises_" + impl["__error__"]], [], None
     dis = []
+    if op == "reference_on":
+        spec = []
+        if impl["n"] != impl["n_bins"]:
+            spec.append("exact_bins_corrections_on")
+        if not impl["max_spread"] <= 1e-6:
+            spec.append("depth_only_normals_spread_zero_corrections_on")
+        if not impl["max_diff"] <= 1e-6:
+            spec.append("depth_only_normals_same_profile_corrections_on")
+        return spec, [], None
     if op == "gc_rmask":
         if not (_close(impl[0], out[0]) and _close(impl[1], out[1])):
             dis.append(f"gc/rmask model {out} impl {impl}")
@@ -287,4 +348,4 @@ def judge(case, impl, resp):
 
 def nontrivial(case, impl, resp):
     i = case["in"]
-    return case["op"] != "reference" or i["k"] >= 2
+    return case["op"] not in ("reference",) or i["k"] >= 2
